@@ -300,6 +300,7 @@ func pointInputs(r *vh.Rng, in grpprog.Inst, thorough bool, nvalid, nflip int) [
 			}
 		}
 	}
+	ins = append(ins, altFormats(r, in, valid, nvalid)...)
 	if rp, ok := resParams[in.Name]; ok {
 		ins = append(ins, residueSpecials(r, rp, size, nvalid+2)...)
 	}
